@@ -13,7 +13,7 @@ VDQ = "std::collections::VecDeque"
 def checkout_drop(facts):
     for f in facts.fns.values():
         if f.nkey.endswith("PinnedDrop>::drop::__drop_inner") and "client::pool::checkout::Checkout" in f.nkey:
-            return f
+            return facts.unit(f)
     raise KeyError("pinned drop of Checkout")
 
 
@@ -98,11 +98,11 @@ def waker_rule(ctx, fn, label=None):
 
 def E_WAKER_pool(ctx, facts):
     fns = [
-        facts.method("client::pool::checkout::Waiting", "Future", "poll"),
-        facts.method("client::pool::checkout::Checkout", "Future", "poll"),
-        facts.method("client::pool::WhenReady", "Future", "poll"),
-        facts.method("client::pool::service::ResponseFuture", "Future", "poll"),
-        facts.fn("client::conn::connector::Connector::poll_connector"),
+        facts.unit(facts.method("client::pool::checkout::Waiting", "Future", "poll")),
+        facts.unit(facts.method("client::pool::checkout::Checkout", "Future", "poll")),
+        facts.unit(facts.method("client::pool::WhenReady", "Future", "poll")),
+        facts.unit(facts.method("client::pool::service::ResponseFuture", "Future", "poll")),
+        facts.unit(facts.fn("client::conn::connector::Connector::poll_connector")),
     ]
     total = 0
     for f in fns:
@@ -115,7 +115,7 @@ def E_WAKER_pool(ctx, facts):
 
 def P12(ctx, facts):
     """Waiting::poll typestate."""
-    f = facts.method("client::pool::checkout::Waiting", "Future", "poll")
+    f = facts.unit(facts.method("client::pool::checkout::Waiting", "Future", "poll"))
     ctx.touched(f)
     ap = AbsPaths(f)
     sets = [c for c in f.calls("std::pin::Pin::set", "core::pin::Pin::set")]
@@ -179,7 +179,7 @@ def P12(ctx, facts):
 # ------------------------------------------------------------------ P13 / C03.1
 
 def P13(ctx, facts):
-    f = facts.method("client::pool::checkout::Checkout", "Future", "poll")
+    f = facts.unit(facts.method("client::pool::checkout::Checkout", "Future", "poll"))
     ctx.touched(f)
     wp = [c for c in f.calls() if c.matches(r"client::pool::checkout::Waiting.*Future>::poll") or
           (c.is_("std::future::Future::poll", "core::future::future::Future::poll", "futures_core::Future::poll") and "checkout::Waiting<" in (c.t.get("argtys") or [""])[0])]
@@ -263,7 +263,7 @@ def P9(ctx, facts, aspects=("marker", "waiters-first", "delivered-or-drained", "
     (PoolInner methods calling IdleConnections::push) wherever they live, so extracting a helper keeps them decided."""
     import pool
     A = set(aspects)
-    inner = [g for g in facts.fns.values() if g.nkey.startswith("client::pool::PoolInner::") and "{closure" not in g.nkey]
+    inner = pool.pool_units(facts)
     walks = [g for g in inner if any((c.t.get("argtys") or [""])[0].startswith("&mut std::collections::" + SENDER_Q) for c in g.calls(VDQ + "::pop_front"))]
     if len(walks) != 1:
         return ctx.missing("PoolInner|waiter-walk", "expected exactly one PoolInner method popping queued senders, found %s" % [g.nkey for g in walks])
@@ -396,7 +396,7 @@ def queue_kept(ctx, facts):
 # ------------------------------------------------------------------ P8
 
 def P8(ctx, facts):
-    f = facts.fn("client::pool::Pool::checkout")
+    f = facts.unit(facts.fn("client::pool::Pool::checkout"))
     ctx.touched(f)
     ap = AbsPaths(f)
     pops = f.calls("client::pool::PoolInner::pop")
@@ -568,7 +568,7 @@ def P10(ctx, facts, aspects=("sites", "released", "pure-waiter", "spawn")):
 
 
 def P11(ctx, facts):
-    f = facts.fn("client::pool::PoolInner::cancel_connection")
+    f = facts.unit(facts.fn("client::pool::PoolInner::cancel_connection"))
     ctx.touched(f)
     rem = calls_on_field(f, "connecting", HSET + "::remove")
     ctx.floor("cancel_connection|marker-remove", len(rem), 1, "connecting.remove in cancel_connection")
@@ -628,7 +628,7 @@ def P11(ctx, facts):
 # ------------------------------------------------------------------ P14
 
 def P14(ctx, facts):
-    new = facts.fn("client::pool::checkout::Checkout::new")
+    new = facts.unit(facts.fn("client::pool::checkout::Checkout::new"))
     ctx.touched(new)
     dd = new.aggregates("client::pool::checkout::InnerCheckoutConnecting", "ConnectingWithDelayDrop")
     cc = new.aggregates("client::pool::checkout::InnerCheckoutConnecting", "Connecting")
@@ -663,7 +663,7 @@ def P14(ctx, facts):
         ok, w = new.guarded(b, lambda lab: lab.kind == "variant" and lab.variants == {"None"})
         ctx.check(ok, "Checkout::new|pure-waiter-iff-no-connector", "the pure-waiter state is chosen only when no connector was given",
                   "pure-waiter state reachable with a connector", new.where(b), new.path_desc(w))
-    ad = facts.fn("client::pool::checkout::Checkout::as_delayed")
+    ad = facts.unit(facts.fn("client::pool::checkout::Checkout::as_delayed"))
     ctx.touched(ad)
     lits = ad.aggregates("client::pool::checkout::Checkout")
     ctx.floor("as_delayed|literal", len(lits), 1, "Checkout literal in as_delayed")
@@ -754,7 +754,7 @@ def P15(ctx, facts):
         ctx.check(ok, "Checkout::drop|returns-own-connection", "the connection returned is the checkout's own never-delivered `connection`",
                   "roots %s" % sorted(map(repr, rr)), c.where())
     # the Connected arm of poll consumes `connection` via take(): after that the field is None, so drop returns nothing twice
-    f = facts.method("client::pool::checkout::Checkout", "Future", "poll")
+    f = facts.unit(facts.method("client::pool::checkout::Checkout", "Future", "poll"))
     takes = [c for c in f.calls(*OPT_TAKE) if "connection" in _fields_of_ref(f, c.args[0])]
     ctx.floor("Checkout::poll|connection-take", len(takes), 1, "connection.take() in the Connected arm")
 
